@@ -48,6 +48,7 @@ def enabled(tree, meta):
         for fs in FSETS:
             out.append((ops.create("", fs), m2, cont))
         out.append((ops.create("", ["xxh64"], n=True), m2, cont))
+        out.append((ops.create("", ["md5"], slash=True), m2, cont))   # ROOT/ as tab completion writes it
         if meta.get("pool") == "t":
             for ps in (["*.tmp"], ["sub/"], ["x.tmp", "sub"]):
                 out.append((ops.create("", ["md5"], i=ps), m2, cont))
